@@ -102,30 +102,34 @@ def run(ctx):
                     continue
                 # ---- independent readers: [(linear index or None, native index or None, ring)]
                 feats = []
-                if fmt == 'geojson':
-                    doc = json.load(open(path))
-                    for f in doc['features']:
-                        feats.append((f['properties'].get('linear_index'), f['properties'].get('index'),
-                                      ring(shapely.geometry.shape(f['geometry']))))
-                elif fmt == 'shapefile':
-                    with shapefile.Reader(path) as shp:
-                        names = [f[0] for f in shp.fields[1:]]
-                        for sr in shp.shapeRecords():
-                            rec = dict(zip(names, list(sr.record)))
-                            li = rec.get('linear_ind', rec.get('linear_index'))
-                            idx = rec.get('index')
-                            try:
-                                idx = json.loads(idx) if isinstance(idx, str) and idx else idx
-                            except ValueError:
-                                idx = f'unreadable: {idx!r}'
-                            feats.append((li, idx,
-                                          ring(shapely.geometry.shape(sr.shape.__geo_interface__))))
-                elif fmt == 'wkt':
-                    gm = shapely.from_wkt(open(path).read())
-                    feats = [(None, None, ring(p)) for p in gm.geoms]
-                else:
-                    gm = shapely.from_wkb(open(path, 'rb').read())
-                    feats = [(None, None, ring(p)) for p in gm.geoms]
+                try:
+                    if fmt == 'geojson':
+                        doc = json.load(open(path))
+                        for f in doc['features']:
+                            feats.append((f['properties'].get('linear_index'), f['properties'].get('index'),
+                                          ring(shapely.geometry.shape(f['geometry']))))
+                    elif fmt == 'shapefile':
+                        with shapefile.Reader(path) as shp:
+                            names = [f[0] for f in shp.fields[1:]]
+                            for sr in shp.shapeRecords():
+                                rec = dict(zip(names, list(sr.record)))
+                                li = rec.get('linear_ind', rec.get('linear_index'))
+                                idx = rec.get('index')
+                                try:
+                                    idx = json.loads(idx) if isinstance(idx, str) and idx else idx
+                                except ValueError:
+                                    idx = f'unreadable: {idx!r}'
+                                feats.append((li, idx,
+                                              ring(shapely.geometry.shape(sr.shape.__geo_interface__))))
+                    elif fmt == 'wkt':
+                        gm = shapely.from_wkt(open(path).read())
+                        feats = [(None, None, ring(p)) for p in gm.geoms]
+                    else:
+                        gm = shapely.from_wkb(open(path, 'rb').read())
+                        feats = [(None, None, ring(p)) for p in gm.geoms]
+                except Exception as e:     # noqa: BLE001
+                    ctx.report('property', f'the exported {fmt} file cannot be read back: {type(e).__name__}: {str(e)[:200]}', case)
+                    continue
                 # ---- the property, directly
                 want_cells = [k for k, p in enumerate(polys) if p is not None]
                 bad = None
